@@ -632,7 +632,6 @@ class t2data(object):
         infile.read_value_line(self.parameter, 'param3')
         for val in infile.read_values('default_incons'):
             self.parameter['default_incons'].append(val)
-        self.parameter['default_incons'] = trim_trailing_nones(self.parameter['default_incons'])
         # read any additional lines of default incons:
         more = True
         while more:
@@ -643,9 +642,10 @@ class t2data(object):
                 if section: more = False
                 else:
                     more_incons = infile.parse_string(line, 'default_incons')
-                    more_incons = trim_trailing_nones(more_incons)
                     self.parameter['default_incons'] += more_incons
             else: more, line = False, None
+        # (trim only at the end, so blank values keep later ones in position:)
+        self.parameter['default_incons'] = trim_trailing_nones(self.parameter['default_incons'])
         return line
 
     def write_parameters(self, outfile):
